@@ -57,7 +57,8 @@ Inductive pre :=
 | PAbsent
 | PReg (d : data) (hardlinked readable mtime_eq : bool)
 | PDir (nonempty : bool)
-| PLink.
+| PLink (dest : option data).   (* symlink; Some d: it points to a readable regular file with content d, which an
+                                   open that follows symlinks would see; an O_NOFOLLOW open fails with ELOOP *)
 
 Inductive fstate := FAbsent | FReg (d : data) | FDir | FLink.
 
@@ -66,7 +67,7 @@ Definition state_of (p : pre) : fstate :=
   | PAbsent => FAbsent
   | PReg d _ _ _ => FReg d
   | PDir _ => FDir
-  | PLink => FLink
+  | PLink _ => FLink
   end.
 
 Definition exists_pre (p : pre) : bool := match p with PAbsent => false | _ => true end.
@@ -124,7 +125,7 @@ Definition verify (o : opts) (p : pre) (blobs : list data) : fstate_t :=
           (* createFile replaces a multiply-linked file by a new empty one: nothing can be reused *)
           if andb hardlinked (needs_restore st) then None else st
       else None
-  | _ => None   (* ENOENT, ELOOP, not a regular file *)
+  | _ => None   (* ENOENT, ELOOP (O_NOFOLLOW: the destination of a symlink is never looked at), not a regular file *)
   end.
 
 Definition has_match (st : fstate_t) (i : nat) : bool :=
@@ -144,7 +145,7 @@ Definition create_file (o : opts) (p : pre) (size : nat) (sparse : bool) : optio
   match p with
   | PAbsent => Some (ensure_size [] size sparse)
   | PReg d hardlinked _ _ => Some (ensure_size (if hardlinked then [] else d) size sparse)
-  | PLink => Some (ensure_size [] size sparse)
+  | PLink _ => Some (ensure_size [] size sparse)
   | PDir nonempty => if andb nonempty (negb (o_allow_rec o)) then None else Some (ensure_size [] size sparse)
   end.
 
